@@ -1448,6 +1448,12 @@ func ParseDSAPrivateKey(der []byte) (*dsa.PrivateKey, error) {
 	if len(rest) > 0 {
 		return nil, errors.New("ssh: garbage after DSA key")
 	}
+	// The public value must be the one the private value generates, or
+	// signatures made with the key do not verify under its public key.
+	if k.P.Sign() <= 0 || k.Priv.Sign() <= 0 || k.Priv.Cmp(k.P) >= 0 ||
+		new(big.Int).Exp(k.G, k.Priv, k.P).Cmp(k.Pub) != 0 {
+		return nil, errors.New("ssh: DSA public key does not match private key")
+	}
 
 	return &dsa.PrivateKey{
 		PublicKey: dsa.PublicKey{
